@@ -7,9 +7,12 @@ pub mod c04;
 pub mod c05;
 pub mod c06;
 pub mod c07;
+pub mod c08;
 pub mod c09;
 pub mod c10;
+pub mod c11;
 pub mod c12;
+pub mod c13;
 pub mod c14;
 pub mod c15;
 pub mod c16;
@@ -27,8 +30,10 @@ pub fn dispatch(ctx: &Ctx) -> Option<Outcome> {
         "C05" => c05::run(ctx),
         "C06" => c06::run(ctx),
         "C07" => c07::run(ctx),
+        "C08" => c08::run(ctx),
         "C09" => c09::run(ctx),
         "C10" => c10::run(ctx),
+        "C11" => c11::run(ctx),
         "C12" => c12::run(ctx),
         "C15" => c15::run(ctx),
         "C16" => c16::run(ctx),
@@ -36,6 +41,7 @@ pub fn dispatch(ctx: &Ctx) -> Option<Outcome> {
         "C18" => c18::run(ctx),
         "C19" => c19::run(ctx),
         "C20" => c20::run(ctx),
+        "C13" => c13::run(ctx),
         "C14" => c14::run(ctx),
         _ => return None,
     })
@@ -47,6 +53,7 @@ pub fn worker_main(args: &[String]) -> i32 {
         Some("c06") => c06::worker(&args[1..]),
         Some("c06kill") => c06::worker_kill(&args[1..]),
         Some("c17") => c17::worker(&args[1..]),
+        Some("c11") => c11::worker(&args[1..]),
         _ => 64,
     }
 }
